@@ -129,6 +129,8 @@ def _queries(vc, est, nf, ns, nd):
         "sample_in_hull": ((), {"n": 3, "seed": 1}),
         "compute_hull": ((), {"seed": 1}),
         "hull_l1_scaling": ((B,), {}),
+        "hull_dist_scaling": ((vc.array("Bz", (2, nf)),), {}),
+        "in_hull(normalized)": ((B,), {"normalized": True}),
         "fit": ((B,), {}),
         "fit_adaptive": ((B,), {}),
         "fit_decomposition": ((B,), {"seed": 1}),
@@ -138,7 +140,7 @@ def _queries(vc, est, nf, ns, nd):
     }
 
 
-STUBBED = ["calculate_capture", "in_hull_from_A", "in_hull", "range_of_solutions", "sample_in_hull", "compute_gamut", "lsq_linear", "lsq_linear_excitation",
+STUBBED = ["barycentric_dim_reduction", "cartesian_to_barycentric", "alpha_for_B_with_P", "ConvexHull", "calculate_capture", "in_hull_from_A", "in_hull", "range_of_solutions", "sample_in_hull", "compute_gamut", "lsq_linear", "lsq_linear_excitation",
            "lsq_linear_adaptive", "lsq_linear_decomposition", "lsq_linear_underdetermined", "lsq_linear_minimize", "lsq_nonlinear", "get_P_from_A", "equalize_domains"]
 
 
@@ -157,7 +159,22 @@ def _install_stubs(vc, E, log):
             if name in ("lsq_linear_adaptive", "lsq_linear_decomposition", "lsq_linear_minimize"):
                 return "X", "S-or-P", "Bpred"
             if name == "get_P_from_A":
-                return vc.array("Pgamut", (4, np.asarray(a[0]).shape[0]))
+                Pg_ = vc.array("Pgamut", (4, np.asarray(a[0]).shape[0]))
+                for e_ in np.asarray(Pg_).ravel().tolist():
+                    vc.assume(vc.gt(e_, 0))
+                return Pg_
+            if name == "barycentric_dim_reduction":
+                return vc.array(f"bary{len(log)}", (np.asarray(a[0]).shape[0], np.asarray(a[0]).shape[1] - 1))
+            if name == "cartesian_to_barycentric":
+                return vc.array(f"c2b{len(log)}", (np.asarray(a[0]).shape[0], np.asarray(a[0]).shape[1] + 1))
+            if name == "alpha_for_B_with_P":
+                return vc.array(f"alpha{len(log)}", (np.asarray(a[0]).shape[0],))
+            if name == "in_hull":
+                return np.array([False] * np.asarray(a[1]).reshape(-1, np.asarray(a[1]).shape[-1]).shape[0]) if np.asarray(a[1]).ndim > 1 else np.array(True)
+            if name == "ConvexHull":
+                class _H:
+                    equations = vc.array("hulleq", (3, np.asarray(a[0]).shape[1] + 1))
+                return _H()
             return f"<{name}>"
         return f
 
@@ -180,14 +197,21 @@ def query_frames(vc, cfg):
     name = cfg["method"]
     spec = qs[name]
     args, kw = spec
+    if name == "hull_dist_scaling":
+        # one all-zero target row and one ordinary row: the zero row is replaced by the neutral point internally
+        vc.assume(vc.all_(vc.eq(args[0][0, j], 0) for j in range(nf)))
+        vc.assume(vc.all_(vc.gt(args[0][1, j], 0) for j in range(nf)))
     copies = [np.array(a, dtype=object, copy=True) if isinstance(a, np.ndarray) else a for a in args]
+    meth = name.split("(")[0]
     before = _snap(est)
     log = []
     with _install_stubs(vc, E, log):
         _track(est)
-        o = vc.call(getattr(est, name), *args, **kw)
+        o = vc.call(getattr(est, meth), *args, **kw)
         reads, writes = _untrack(est)
-    if not vc.returns(f"{name}-terminates", o):
+    if name == "hull_dist_scaling" and o.raised(AssertionError):
+        o = None  # documented precondition (neutral point inside the chromatic gamut) not met on this path: frames still apply
+    elif not vc.returns(f"{name}-terminates", o):
         return
     after = _snap(est)
     vc.prove(f"{name}: writes no attribute", not writes and set(after) == set(before), detail=f"writes {sorted(writes)} new {sorted(set(after) - set(before))}")
@@ -354,7 +378,7 @@ def histories(vc, cfg):
 
 def _q_cfgs(tier):
     return [dict(method=m) for m in ("capture", "relative_capture", "system_capture", "system_relative_capture", "in_system", "in_hull", "in_gamut", "range_of_solutions",
-                                     "sample_in_hull", "compute_hull", "hull_l1_scaling", "fit", "fit_adaptive", "fit_decomposition", "fit_underdetermined", "minimize_variance")]
+                                     "sample_in_hull", "compute_hull", "hull_l1_scaling", "hull_dist_scaling", "in_hull(normalized)", "fit", "fit_adaptive", "fit_decomposition", "fit_underdetermined", "minimize_variance")]
 
 
 def _m_cfgs(tier):
